@@ -3,8 +3,11 @@
 Three streams, all executed against the real code (/repo) and the Lean model/Spec through the driver:
 
 A  structures: for every message class the valid raw lists with each position and each option replaced by values of
-   every kind/boundary, wrong element counts, unknown/negative/bool type codes, role dictionaries, enc_* subsets,
-   pairs of mutations.  Real path: Serializer.unserialize (envelope checks, MESSAGE_TYPE_MAP dispatch, Klass.parse)
+   every kind/boundary, wrong element counts, unknown/negative/bool type codes, enc_* subsets, pairs of mutations;
+   HELLO/WELCOME role dictionaries: every role x every known feature (names from the live Role*Features signatures) x
+   24 values (all falsy non-bools 0, 0.0, "", [], {}, b"", truthy non-bools, null, true/false), unknown feature names,
+   wrong containers for features / a role / roles, two-role orders; these also travel through the four real
+   serializers and must agree with the prepared-structure path.  Real path: Serializer.unserialize (envelope checks, MESSAGE_TYPE_MAP dispatch, Klass.parse)
    on the prepared structure.  Observable: re-marshalled message + public attributes, or the exception CLASS.
 B  URI strings: all strings <= 4 (quick: <= 3 plus a sample) over {a,0,_,.,#,' ','\\n','A','e-acute','arabic 3'} for all 8
    (strict, allow_empty_components, allow_last_empty) triples against the regenerated regex model (Uri.check) and
@@ -17,6 +20,8 @@ Verdicts:
 * an exception class other than ProtocolError / InvalidUriError                  -> Violation "<Exc>:<Class>.parse:<site>"
 * an accepted message that the Spec says must not be accepted (wamp.spec)       -> Violation "uri-accepts-trailing-newline",
   "uri-strict-accepts-unicode-digit", "id-range-unchecked:<Class>.<field>", "wrong-type-accepted:<Class>.<field>"
+* an accepted message that the Spec says must be REJECTED (e.g. a non-bool value of a known role feature)
+                                                                                -> Violation "accepted-but-spec-rejects:<Class>:<site>"
 * a re-marshalled message that does not parse back to the same attributes       -> Violation "reparse-...:<Class>"
 * model != real on any observable                                              -> correspondence break
 
@@ -68,8 +73,9 @@ MANIFEST_ENTRY = {
             "message has every id in [0,2^53], every URI accepted by the regenerated pattern for its flags, every option of its "
             "checked type, an admissible element count and a known type code (parse_strict), re-marshalling an accepted message "
             "parses back to it under the stated residual conditions (reparse_equiv_partial); the six _URI_PAT_* / _CUSTOM_ATTRIBUTE / "
-            "realm regexes (regenerated from message.py) equal the intended grammar except for a trailing newline and non-ASCII "
-            "digits (uri_equiv_partial; F2 witnesses). The model is tied to the code on ~10^5 mutated structures per run, all URI "
+            "realm regexes (regenerated from message.py) equal the intended grammar for every string (uri_equiv, custom_attr_equiv, "
+            "realm_*_equiv: full since /repo 8a098028; F2 witnesses kept guarded by the generated anchor/class); the 13 forward_for "
+            "loops are for/else and their entries are checked in parse (forward_for_loops_repaired, parse_strict_forward_for). The model is tied to the code on ~10^5 mutated structures per run, all URI "
             "strings <= 4 over a 10-symbol alphabet for all flag triples, and mutated octet strings for 8 serializer configurations.",
     "note": "Trusted: Lean kernel; the hand-written schemas mirror message.py (checked only by the differential run); Python re "
             "and the serializer libraries. Findings on the unchanged tree are listed in known_findings.d/C08.jsonl.",
@@ -223,7 +229,10 @@ def part_struct(ctx, res, code_names, replay_tok=None):
                         what = f"{cname}.parse accepts {f}={fields.get(f)!r}: not of the option's type"
                     violate(key, what, replay)
             elif sp.startswith("reject"):
-                pass  # model rejects, real accepts: already a correspondence break above
+                # the real code ACCEPTS what the Spec (theorems roles_accept_iff, parse_strict, …) says must be rejected
+                site = a.split(" ")[2] if len(a.split(" ")) > 2 else "?"
+                violate(f"accepted-but-spec-rejects:{cname}:{site}",
+                        f"{cname}.parse accepts an input that must raise {sp.split(' ')[1]} (check at '{site}'): {c['tok'][:160]}", replay)
             # re-parse equivalence
             rp = c.get("det", {}).get("reparse")
             if rp is not None:
@@ -471,7 +480,7 @@ def part_octets(ctx, res, code_names, replay=None):
 def translator_selfcheck(ctx, res):
     o = run_worker(W / "c08_tables.py", {"patterns": URI_PATTERNS})
     lines = [f"wamp.code {c}" for c in o["codes"]] + [f"uri.src {n}" for n in URI_PATTERNS] + \
-            [f"wamp.lengths {c}" for c in o["codes"]] + ["wamp.typemap"]
+            [f"wamp.lengths {c}" for c in o["codes"]] + ["wamp.rolefeatures", "wamp.typemap"]
     ans = ctx.driver.run(lines)
     n = len(o["codes"])
     code_names = {}
@@ -482,6 +491,10 @@ def translator_selfcheck(ctx, res):
     for name, a in zip(URI_PATTERNS, ans[n:n + len(URI_PATTERNS)]):
         if bytes.fromhex(a).decode("utf8") != o["patterns"][name]:
             res.correspondence_breaks.append({"stream": "translator", "what": f"pattern {name}", "real": o["patterns"][name], "generated": a})
+    gen_rf = {e.split(":")[0]: e.split(":")[1].split(",") for e in ans[-2].split(";")}
+    if gen_rf != o["role_features"]:
+        res.correspondence_breaks.append({"stream": "translator", "what": "role feature names (role.py __init__ signatures)",
+                                          "real": o["role_features"], "generated": gen_rf})
     tm = ",".join(sorted(ans[-1].split(","), key=lambda e: int(e.split(":")[0])))
     real_tm = ",".join(f"{k}:{v}" for k, v in sorted(o["type_map"].items(), key=lambda kv: int(kv[0])))
     if tm != real_tm:
@@ -539,5 +552,8 @@ Mutation self-test (scratch copy of /repo/src via VERIF_REPO, quick tier, 2026-0
  M6  JSON batch split [:-1] -> [1:]                                rc=1  correspondence break on the chunking (concrete payload in the replay)
  M8  CBOR batch length prefix read little-endian                   rc=1  correspondence break on the chunking (concrete payload in the replay)
  M9  _URI_PAT_LOOSE_NON_EMPTY loses '#' from its class             rc=1  uri-grammar:Error.error, uri-grammar:Call.procedure, ... (12 keys) + uriClass_loose_ok no longer proves
+ S1  seeded: RoleFeatures._check_all_bool tests `if v and type(v) != bool` (falsy non-bool feature values accepted)
+                                                                   rc=1  accepted-but-spec-rejects:Hello:roles, accepted-but-spec-rejects:Welcome:roles
+                                                                         (e.g. [1,"realm1",{"roles":{"subscriber":{"features":{"publisher_identification":{}}}}}], via all 4 serializers)
  H1  harmless: GOODBYE option blocks swapped, local renamed, f-string -> format   rc=0 (silent)
 """
